@@ -218,6 +218,12 @@ where
         &self.inner.1
     }
 
+    /// Number of edges this node created itself with `connect`; `iter()` yields
+    /// these first, followed by the edges created by the other endpoint.
+    pub(crate) fn created_edges(&self) -> usize {
+        self.inner.2.borrow().len_outbound()
+    }
+
     /// Verification observer (cfg `gdsl_verif` only): number of half-edges this
     /// node created itself, i.e. where `iter()` switches from own to received ones.
     #[cfg(gdsl_verif)]
